@@ -310,6 +310,10 @@ class Arr:
                 return
         if isinstance(key, Arr):
             # scatter a[idx] = v : recorded as a guarded functional update for the generic row of `key`'s space
+            if getattr(it, "lenient_numpy", False) and self.owner is None and not it.ctx.merge_mode:
+                # contracts that do not depend on this array: its elements are unknown from here on (havoc)
+                self.set_e(it, SV(z3.Function(_fresh_name("scattered"), I, R)(self.space.i)))
+                return
             raise EngineError("scatter store into a 1-D generic array is not modelled")
         raise EngineError(f"array store with key {type(key).__name__}")
 
@@ -430,6 +434,14 @@ def elementwise(it, fn, *args):
     return Arr(base.space, fn(*vals), base.mask)
 
 
+_fresh_counter = [0]
+
+
+def _fresh_name(prefix):
+    _fresh_counter[0] += 1
+    return f"{prefix}#{_fresh_counter[0]}"
+
+
 def outer_vars(space, *zs):
     """generic-row variables of *other* row spaces occurring in the formulas: a count / sum over the rows of `space` is a function of them"""
     seen, out, stack = set(), {}, [z for z in zs if z is not None and not isinstance(z, bool)]
@@ -448,6 +460,8 @@ def outer_vars(space, *zs):
 def _count(it, space, mask):
     """number of rows selected by a mask: non-negative, and at least one if the generic row is selected"""
     mask = z3.simplify(mask)
+    if z3.is_false(mask):
+        return z3.IntVal(0)
     ov = outer_vars(space, mask)
     if ov:
         # the mask refers to the generic row of another space (e.g. "rows whose key is this node"): the count is a function of it
